@@ -93,6 +93,17 @@ type serverConn struct {
 	// a handler that outlives the connection has somewhere to give up.
 	handlerStop chan struct{}
 
+	// resetIDs remembers the streams this end has reset most recently, so that
+	// frames the peer sent before it saw the RST_STREAM can be told apart from
+	// frames on a stream that was never opened or has ended normally. It is the
+	// stream loop's. discardCarry is the tail of a header field cut by a frame
+	// boundary inside a header block that is being decoded only for the sake
+	// of the HPACK table.
+	resetIDs     map[uint32]struct{}
+	resetRing    []uint32
+	resetOldest  int
+	discardCarry []byte
+
 	// admitMu orders the opening of streams against the sending of GOAWAY. A
 	// stream is either opened before the GOAWAY is built, and then its
 	// last-stream-id covers it, or it is refused: the read loop and the idle
@@ -536,6 +547,13 @@ func (sc *serverConn) handleStreams() {
 		markClosed(strmID)
 		strms.Del(strmID)
 
+		// A stream reset in the middle of its header block leaves the rest of
+		// the block to handleInFlight, which needs the half of the field that
+		// has already arrived.
+		if len(strm.previousHeaderBytes) != 0 {
+			sc.discardCarry = append(sc.discardCarry[:0], strm.previousHeaderBytes...)
+		}
+
 		sc.closeBodyStream(strm)
 
 		// A handler still owns ctx, so neither the memory nor the concurrency
@@ -740,6 +758,17 @@ loop:
 			}
 
 			if strm == nil {
+				// Whatever the peer sent before it saw our RST_STREAM is still
+				// on its way.
+				if _, ok := sc.resetIDs[fr.Stream()]; ok {
+					if err := sc.handleInFlight(fr); err != nil {
+						sc.writeError(nil, err)
+						break loop
+					}
+
+					continue
+				}
+
 				// if the stream doesn't exist, create it
 
 				if fr.Type() == FrameResetStream {
@@ -807,6 +836,21 @@ loop:
 
 					sc.writeReset(fr.Stream(), RefusedStreamError)
 
+					// A refused stream has been used all the same: the ids below
+					// it are no longer idle, and opening one of them is an error
+					// (RFC 7540 5.1.1). After a GOAWAY nothing is recorded, what
+					// it said about the last stream must not grow.
+					if fr.Type() == FrameHeaders && fr.Stream() > sc.lastID && !wasClosing {
+						sc.admit(fr.Stream())
+					}
+
+					// The request is not served, but its header block has
+					// changed the peer's HPACK table and has to change ours.
+					if err := sc.handleInFlight(fr); err != nil {
+						sc.writeError(nil, err)
+						break loop
+					}
+
 					continue
 				}
 
@@ -827,6 +871,11 @@ loop:
 				// stream stands, so this one is not served.
 				if fr.Type() == FrameHeaders && !sc.admit(fr.Stream()) {
 					sc.writeReset(fr.Stream(), RefusedStreamError)
+
+					if err := sc.handleInFlight(fr); err != nil {
+						sc.writeError(nil, err)
+						break loop
+					}
 
 					continue
 				}
@@ -1024,12 +1073,85 @@ func (sc *serverConn) writeReset(strm uint32, code ErrorCode) {
 
 	sc.write(fr)
 
+	sc.noteReset(strm)
+
 	if sc.debug {
 		sc.logger.Printf(
 			"%s: Reset(stream=%d, code=%s)\n",
 			sc.c.RemoteAddr(), strm, code,
 		)
 	}
+}
+
+// noteReset remembers that this end has reset the stream. Only the most recent
+// ids are kept, for the reason closedStrms is bounded.
+func (sc *serverConn) noteReset(id uint32) {
+	if sc.resetIDs == nil {
+		sc.resetIDs = make(map[uint32]struct{}, closedStrmsCap)
+	}
+
+	if _, ok := sc.resetIDs[id]; ok {
+		return
+	}
+
+	if len(sc.resetRing) < closedStrmsCap {
+		sc.resetRing = append(sc.resetRing, id)
+	} else {
+		delete(sc.resetIDs, sc.resetRing[sc.resetOldest])
+		sc.resetRing[sc.resetOldest] = id
+		sc.resetOldest = (sc.resetOldest + 1) % closedStrmsCap
+	}
+
+	sc.resetIDs[id] = struct{}{}
+}
+
+// handleInFlight deals with a frame on a stream this end has reset. The peer
+// sent it before it knew, so it is not an error (RFC 7540 5.1, closed), but it
+// cannot simply be dropped either: DATA has been paid for out of the connection
+// window, and a header block changes the HPACK table whatever becomes of the
+// request it carries (RFC 7540 4.3, 6.9).
+func (sc *serverConn) handleInFlight(fr *FrameHeader) error {
+	switch fr.Type() {
+	case FrameData:
+		sc.consumeConnRecvWindow(fr.Len())
+	case FrameHeaders, FrameContinuation:
+		return sc.discardHeaderBlock(fr)
+	}
+
+	return nil
+}
+
+// discardHeaderBlock runs the header block fragment in fr through the decoder
+// and throws the fields away.
+func (sc *serverConn) discardHeaderBlock(fr *FrameHeader) error {
+	blockStart := fr.Type() != FrameContinuation && len(sc.discardCarry) == 0
+
+	b := append(sc.discardCarry, fr.Body().(FrameWithHeaders).Headers()...)
+	sc.discardCarry = b[:0]
+
+	hf := AcquireHeaderField()
+	defer ReleaseHeaderField(hf)
+
+	var err error
+
+	for fields := 0; len(b) > 0; fields++ {
+		pb := b
+
+		b, err = sc.dec.nextField(hf, blockStart, fields, b)
+		if err != nil {
+			// A field cut by the end of the frame is finished by the
+			// CONTINUATION that follows.
+			if errors.Is(err, ErrUnexpectedSize) && !fr.Flags().Has(FlagEndHeaders) {
+				sc.discardCarry = append(sc.discardCarry, pb...)
+
+				return nil
+			}
+
+			return NewGoAwayError(CompressionError, err.Error())
+		}
+	}
+
+	return nil
 }
 
 // admit records id as the highest stream the peer has opened, unless a GOAWAY
